@@ -25,6 +25,8 @@ ASSUMPTIONS = [
     "'type-compatible' is the library's is_compatible_type: subtype for user types, OVERLAP (not inclusion) of the "
     "intervals for numeric types, int accepted where real is expected",
     "the type of a value is what the type checker says (FNode.type, property C15): supplied to the model per case",
+    "divisors inside generated expressions are non-zero constants (Problem.kind — evaluated by `==` — replaces static "
+    "fluents by their initial values and raises ZeroDivisionError on e.g. the metric x/x with x initially 0)",
     "expressions handed to the API are well-typed in themselves; arity errors only at the top-level fluent",
     "'rejected calls leave the model unchanged' is claimed for every error class except the UPProblemDefinitionError "
     "that add_fluent/add_object/add_action raise from _add_user_type AFTER appending (a name clash between a new user "
